@@ -988,7 +988,11 @@ class Interp:
         out = []
         for e in elts:
             if isinstance(e, ast.Starred):
-                out.extend(self.iterate(self.eval(e.value, env), e))
+                v = self.eval(e.value, env)
+                if isinstance(v, Term):
+                    out.append(Term("star", v))  # a structural value of unknown length (e.g. the shape of a term)
+                    continue
+                out.extend(self.iterate(v, e))
             else:
                 out.append(self.eval(e, env))
         return out
